@@ -6,8 +6,8 @@ From FJ Require Import Lib.Base.
      E1 = {ValueError, Hang}                     operators and expression evaluation (ValueError: an unprintable integer
                                                   inside the handler that builds the message; Hang: a power that never ends)
      E2 = E1 + RecursionError                     entry points of the recursive Expr traversals, the parser stage
-     E3 = E2 + KeyError                           macro resolution (insert_label on an internal label name)
      E4 = E2 + MemoryError                        label resolution (insert_padding)
+   Macro resolution stays within E2 (self.macros[...] is only indexed with names that were looked up before).
    Everything else (TypeError/KeyError/NameError of an operator, IndexError of `flip_addresses.pop()`, struct.error in
    write_to_file) is shown unreachable.  *)
 From FJ Require Import Model.Ast Model.AsmErrors.
@@ -17,13 +17,10 @@ Definition raw_in (S : rawexn -> Prop) {A} (r : res A) : Prop := forall x, r = R
 
 Definition E1 (x : rawexn) : Prop := x = ValueError \/ x = Hang.
 Definition E2 (x : rawexn) : Prop := E1 x \/ x = RecursionError.
-Definition E3 (x : rawexn) : Prop := E2 x \/ x = KeyError.
 Definition E4 (x : rawexn) : Prop := E2 x \/ x = MemoryError.
 
 Lemma E1_E2 x : E1 x -> E2 x. Proof. now left. Qed.
-Lemma E2_E3 x : E2 x -> E3 x. Proof. now left. Qed.
 Lemma E2_E4 x : E2 x -> E4 x. Proof. now left. Qed.
-Lemma E1_E3 x : E1 x -> E3 x. Proof. intro; now apply E2_E3, E1_E2. Qed.
 Lemma E1_E4 x : E1 x -> E4 x. Proof. intro; now apply E2_E4, E1_E2. Qed.
 
 Lemma raw_in_weaken (S S' : rawexn -> Prop) {A} (r : res A) :
@@ -57,7 +54,7 @@ Ltac dif := match goal with |- context [if ?c then _ else _] => destruct c end.
 Ltac rawsolve :=
   repeat first
     [ apply raw_in_ok | apply raw_in_lib
-    | apply raw_in_raw; unfold E4, E3, E2, E1; tauto
+    | apply raw_in_raw; unfold E4, E2, E1; tauto
     | assumption ].
 
 (* ------------------------------------------------------------------------------------------------------------------ *)
@@ -157,44 +154,46 @@ Qed.
 (* ------------------------------------------------------------------------------------------------------------------ *)
 (** * Macro resolution *)
 
-Lemma insert_label_raw st name : raw_in E3 (insert_label st name).
+Lemma insert_label_raw st name : raw_in E2 (insert_label st name).
+Proof. unfold insert_label. destruct (dict_mem (p_labels st) name); rawsolve. Qed.
+
+Lemma insert_segment_raw st a : raw_in E2 (insert_segment st a).
 Proof.
-  unfold insert_label. destruct (dict_mem (p_labels st) name); [|rawsolve].
-  destruct (existsb (String.eqb name) (p_pos st)); rawsolve.
+  unfold insert_segment. destruct (dict_mem (p_labels st) (wflip_start_label (p_seg st))); [rawsolve|].
+  destruct (patch_last st); rawsolve.
 Qed.
 
-Lemma align_raw cfg st n : raw_in E3 (align_current_address cfg st n).
+Lemma align_raw cfg st n : raw_in E2 (align_current_address cfg st n).
 Proof.
   unfold align_current_address. cbv zeta.
   destruct (negb (p_addr st mod (2 * c_w cfg) =? 0)).
   - destruct (unprintable (p_addr st)); rawsolve.
-  - match goal with |- context [if ?c then _ else _] => destruct c end; [|rawsolve].
-    match goal with |- context [if ?c then _ else _] => destruct c end; rawsolve.
+  - dif; [|rawsolve]. dif; rawsolve.
 Qed.
 
 Section ResolveProps.
 Variable cfg : config.
 Variable macros : macro_dict.
 
-Definition callee_ok (call : callee_t) : Prop := forall st mn a p, raw_in E3 (call st mn a p).
+(* a recursive call is only made for a macro that is in the dictionary (prepare_macro_call has checked it) *)
+Definition callee_ok (call : callee_t) : Prop :=
+  forall st mn a p, find_macro macros mn <> None -> raw_in E2 (call st mn a p).
 
-Lemma rep_loop_raw call callee hyg cargs path k : callee_ok call ->
-  forall i st, raw_in E3 (rep_loop cfg call callee hyg cargs path k i st).
+Lemma rep_loop_raw call callee hyg cargs path k : callee_ok call -> find_macro macros callee <> None ->
+  forall i st, raw_in E2 (rep_loop cfg call callee hyg cargs path k i st).
 Proof.
-  intros Hc. induction k as [|k IH]; intros i st; simpl; [rawsolve|].
+  intros Hc Hm. induction k as [|k IH]; intros i st; simpl; [rawsolve|].
   apply raw_in_bind.
-  - apply raw_in_relabel. eapply raw_in_weaken; [apply E2_E3|apply eval_new_list_raw].
-  - intros iargs _. apply raw_in_bind; [apply Hc|intros; apply IH].
+  - apply raw_in_relabel. apply eval_new_list_raw.
+  - intros iargs _. apply raw_in_bind; [apply Hc; exact Hm|intros; apply IH].
 Qed.
 
 Ltac ev3 :=
-  first [ eapply raw_in_weaken; [apply E2_E3|apply eval_new_raw]
-        | eapply raw_in_weaken; [apply E2_E3|apply eval_new_list_raw]
-        | apply raw_in_relabel; eapply raw_in_weaken; [apply E2_E3|apply exact_eval_raw] ].
+  first [ apply eval_new_raw | apply eval_new_list_raw | apply raw_in_relabel; apply exact_eval_raw ].
 
 Lemma resolve_op_raw rec sg prefix st op :
   match rec with Some call => callee_ok call | None => True end ->
-  raw_in E3 (resolve_op cfg macros rec sg prefix st op).
+  raw_in E2 (resolve_op cfg macros rec sg prefix st op).
 Proof.
   intros Hrec. destruct op; simpl.
   - (* FlipJump *) repeat (apply raw_in_bind; [ev3|intros]). rawsolve.
@@ -206,7 +205,7 @@ Proof.
       destruct (exact_eval cfg (p_labels st) e') as [z|k|x].
       * rawsolve.
       * destruct (has_unprintable e'); rawsolve.
-      * eapply raw_in_weaken; [apply E2_E3|exact H].
+      * exact H.
     + intros n _. destruct (n <=? 0).
       * destruct (unprintable n); rawsolve.
       * apply align_raw.
@@ -216,43 +215,64 @@ Proof.
     apply insert_label_raw.
   - (* MacroCall *)
     apply raw_in_bind; [ev3|intros cargs' _].
-    destruct (find_macro macros (call_name name cargs')); [|rawsolve].
-    destruct rec as [call|]; [apply Hrec|rawsolve].
+    destruct (find_macro macros (call_name name cargs')) eqn:F; [|rawsolve].
+    destruct rec as [call|]; [|rawsolve]. apply Hrec. congruence.
   - (* RepCall *)
     repeat (apply raw_in_bind; [ev3|intros]).
-    match goal with |- context [if ?c then _ else _] => destruct c end; [rawsolve|].
-    match goal with |- context [find_macro macros ?c] => destruct (find_macro macros c) end; [|rawsolve].
+    dif; [rawsolve|].
+    match goal with |- context [find_macro macros ?c] => destruct (find_macro macros c) eqn:F end; [|rawsolve].
     destruct rec as [call|]; [|rawsolve].
-    match goal with |- context [if ?c then _ else _] => destruct c end; [rawsolve|].
-    apply rep_loop_raw. exact Hrec.
+    dif; [rawsolve|].
+    apply rep_loop_raw; [exact Hrec|congruence].
   - (* Segment *)
     repeat (apply raw_in_bind; [ev3|intros]).
-    match goal with |- context [if ?c then _ else _] => destruct c end; rawsolve.
+    dif; [rawsolve|apply insert_segment_raw].
   - (* Reserve *)
     repeat (apply raw_in_bind; [ev3|intros]).
-    match goal with |- context [if ?c then _ else _] => destruct c end; rawsolve.
+    dif; [rawsolve|]. dif; rawsolve.
 Qed.
 
-Lemma resolve_ops_raw step ops : (forall st op, raw_in E3 (step st op)) -> forall st, raw_in E3 (resolve_ops step ops st).
+Lemma resolve_ops_raw step ops : (forall st op, raw_in E2 (step st op)) -> forall st, raw_in E2 (resolve_ops step ops st).
 Proof.
   intros Hs. induction ops as [|op ops IH]; intros st; simpl; [rawsolve|].
   apply raw_in_bind; [apply Hs|intros; apply IH].
 Qed.
 
-Lemma resolve_aux_raw fuel : forall st mn args prefix, raw_in E3 (resolve_aux cfg macros fuel st mn args prefix).
+(* self.macros[macro_name] never raises KeyError: the main macro is in the dictionary, every callee has been looked up *)
+Lemma resolve_aux_raw fuel : forall st mn args prefix,
+  find_macro macros mn <> None -> raw_in E2 (resolve_aux cfg macros fuel st mn args prefix).
 Proof.
-  induction fuel as [|fuel IH]; intros st mn args prefix; simpl;
-    (destruct (find_macro macros mn) as [m|]; [|rawsolve]);
+  induction fuel as [|fuel IH]; intros st mn args prefix Hm; simpl;
+    (destruct (find_macro macros mn) as [m|]; [|congruence]);
     apply resolve_ops_raw; intros st' op; apply resolve_op_raw; [exact I|exact IH].
 Qed.
 
-Lemma resolve_macros_raw : raw_in E3 (resolve_macros cfg macros).
+Lemma resolve_macros_raw : has_main macros = true -> raw_in E2 (resolve_macros cfg macros).
 Proof.
-  unfold resolve_macros. apply raw_in_bind; [apply resolve_aux_raw|intros st _].
-  destruct (patch_last st); rawsolve.
+  intros Hm. unfold resolve_macros. apply raw_in_bind.
+  - apply resolve_aux_raw. unfold has_main in Hm. destruct (find_macro macros main_macro_name); congruence.
+  - intros st _. destruct (patch_last st); rawsolve.
 Qed.
 
 End ResolveProps.
+
+(* the parser stage rewrites the bodies, not the keys *)
+Lemma parse_macros_keys cfg n : forall d d', parse_macros cfg d = Ok d' ->
+  (find_macro d' n = None <-> find_macro d n = None).
+Proof.
+  induction d as [|[k m] d IH]; simpl; intros d' E.
+  - inversion E; subst. reflexivity.
+  - destruct (fold_stmts cfg (m_ops m)) as [ops|?|?]; simpl in E; try discriminate.
+    destruct (negb (macro_name_eqb k main_macro_name) && negb (walkable cfg ops)); try discriminate.
+    destruct (parse_macros cfg d) as [d''|?|?]; simpl in E; try discriminate.
+    inversion E; subst; simpl. destruct (macro_name_eqb k n); [split; discriminate|]. apply IH. reflexivity.
+Qed.
+
+Lemma parse_macros_main cfg d d' : parse_macros cfg d = Ok d' -> has_main d = true -> has_main d' = true.
+Proof.
+  intros E H. unfold has_main in *. pose proof (parse_macros_keys cfg main_macro_name d d' E) as [K _].
+  destruct (find_macro d' main_macro_name); [reflexivity|]. rewrite (K eq_refl) in H. discriminate.
+Qed.
 
 (* ------------------------------------------------------------------------------------------------------------------ *)
 (** * Label resolution and the writer *)
@@ -303,7 +323,7 @@ Lemma store_wr st l x : b_wr (store st l x) = b_wr st.
 Proof. destruct l; reflexivity. Qed.
 
 Lemma get_wflip_spot_wr cfg st : b_wr (fst (get_wflip_spot cfg st)) = b_wr st.
-Proof. unfold get_wflip_spot. destruct (b_pads st) as [|[base cnt] rest]; reflexivity. Qed.
+Proof. unfold get_wflip_spot. destruct (take_pad_hole cfg (b_first st) (b_pads st)) as [[addr pads']|]; reflexivity. Qed.
 
 Lemma wflip_chain_wr cfg rest : forall st prev ret, b_wr (wflip_chain cfg st prev rest ret) = b_wr st.
 Proof.
@@ -442,19 +462,19 @@ Qed.
 (** * The pipeline *)
 
 (* the only raw exceptions that reach the catch-all of `assemble` *)
-Lemma verdict_cases cfg t :
+Lemma verdict_cases cfg t : has_main t = true ->
   match o_verdict (assemble_model cfg t) with
   | VOk | VLib _ | VHang => True
-  | VCatchAll x => x = ValueError \/ x = RecursionError \/ x = KeyError \/ x = MemoryError
+  | VCatchAll x => x = ValueError \/ x = RecursionError \/ x = MemoryError
   end.
 Proof.
-  unfold assemble_model.
+  intros Hmain. unfold assemble_model.
   pose proof (parse_macros_raw cfg t) as Hp.
-  destruct (parse_macros cfg t) as [t1|k|x]; simpl; [|exact I|].
+  destruct (parse_macros cfg t) as [t1|k|x] eqn:Ep; simpl; [|exact I|].
   2:{ specialize (Hp x eq_refl). destruct x; simpl; try exact I; unfold E2, E1 in Hp; intuition congruence. }
-  pose proof (resolve_macros_raw cfg t1) as Hr.
+  pose proof (resolve_macros_raw cfg t1 (parse_macros_main cfg t t1 Ep Hmain)) as Hr.
   destruct (resolve_macros cfg t1) as [[[w0 ops] lb]|k|x]; simpl; [|exact I|].
-  2:{ specialize (Hr x eq_refl). destruct x; simpl; try exact I; unfold E3, E2, E1 in Hr; intuition congruence. }
+  2:{ specialize (Hr x eq_refl). destruct x; simpl; try exact I; unfold E2, E1 in Hr; intuition congruence. }
   destruct (labels_resolve_spec cfg w0 ops lb) as [Hl Hpk].
   destruct (labels_resolve cfg w0 ops lb) as [st|k|x]; simpl; [|exact I|].
   2:{ specialize (Hl x eq_refl). destruct x; simpl; try exact I; unfold E4, E2, E1 in Hl; intuition congruence. }
@@ -462,15 +482,14 @@ Proof.
   rewrite (Hpk st eq_refl). exact I.
 Qed.
 
-Theorem specific_under_guards cfg t :
-  counts_materialisable cfg t = true -> expr_depth_ok cfg t = true ->
-  internal_labels_free cfg t = true -> diagnostics_printable cfg t = true ->
+Theorem specific_under_guards cfg t : has_main t = true ->
+  counts_materialisable cfg t = true -> expr_depth_ok cfg t = true -> diagnostics_printable cfg t = true ->
   specific (assemble_model cfg t) = true.
 Proof.
-  unfold counts_materialisable, expr_depth_ok, internal_labels_free, diagnostics_printable, specific.
-  pose proof (verdict_cases cfg t) as H.
-  destruct (o_verdict (assemble_model cfg t)) as [| k | x |]; intros G1 G2 G3 G4; try reflexivity; try discriminate.
-  destruct H as [H|[H|[H|H]]]; subst x; discriminate.
+  unfold counts_materialisable, expr_depth_ok, diagnostics_printable, specific.
+  intros Hmain. pose proof (verdict_cases cfg t Hmain) as H.
+  destruct (o_verdict (assemble_model cfg t)) as [| k | x |]; intros G1 G2 G3; try reflexivity; try discriminate.
+  destruct H as [H|[H|H]]; subst x; discriminate.
 Qed.
 
 (* the output path is only touched by the last step, and that step cannot fail: every word handed to the Writer has been
